@@ -163,10 +163,13 @@ type caseT struct {
 	PreDesc  string `json:"pre_desc,omitempty"`
 	// drive the node on after the delivery: "rounds" (at least 3 more rounds) or "commit" (and a height)
 	Drive string `json:"drive,omitempty"`
-	Hex   string `json:"hex,omitempty"`
-	raw   []byte
-	pre   [][]byte
-	preCh []byte
+	// retained-state budget of the whole sequence (pre + message), all from ONE peer: how many more rounds
+	// / majority claims the node may track afterwards; nil = no budget stated
+	Budget *budgetT `json:"budget,omitempty"`
+	Hex    string   `json:"hex,omitempty"`
+	raw    []byte
+	pre    [][]byte
+	preCh  []byte
 }
 
 func (c *caseT) bytes() []byte {
@@ -200,6 +203,13 @@ func (c *caseT) thaw() {
 	}
 }
 
+type budgetT struct {
+	Rounds  int    `json:"rounds"`  // tracked rounds (vote sets) may grow by at most this
+	Catchup int    `json:"catchup"` // catch-up rounds granted to the sending peer
+	Claims  int    `json:"claims"`  // majority claims + per-block tallies may grow by at most this
+	Why     string `json:"why"`
+}
+
 type violT struct {
 	Oracle string `json:"oracle"`
 	What   string `json:"what"`
@@ -225,8 +235,10 @@ type outcome struct {
 	LateCalls int
 	// drive-on: rounds the node entered and heights it committed after the delivery
 	DroveRounds, DroveHeights int
-	GossipSent                int // messages the gossip routines sent to the peer
-	GossipRuns                int
+	// retained-state budget checked / the sequence made the node keep something
+	RetainedChecked, RetainedGrew bool
+	GossipSent                    int // messages the gossip routines sent to the peer
+	GossipRuns                    int
 }
 
 func (o *outcome) viol(oracle, f string, a ...interface{}) {
@@ -389,6 +401,7 @@ func (e *consEnv) run(cs *caseT) *outcome {
 	case peerGone:
 		c.ConR.RemovePeer(p, "gone")
 	}
+	ret0r, _, ret0c, ret0b := consensus.VerifC18Retained(c.N.CS)
 	digPre := consensus.VerifC18PeerDigest(psOf(p))
 	for i, pre := range cs.pre {
 		c.ConR.Receive(cs.preCh[i], p, pre)
@@ -434,6 +447,11 @@ func (e *consEnv) run(cs *caseT) *outcome {
 	out.Queued = 0
 	e.drain(c, out)
 	out.Alloc = allocBytes() - a0
+	// what the node keeps now (before any follow-up message of another peer)
+	ret1r, ret1cu, ret1c, ret1b := 0, map[string]int{}, 0, 0
+	if cs.Budget != nil && c.N.Failed == nil {
+		ret1r, ret1cu, ret1c, ret1b = consensus.VerifC18Retained(c.N.CS)
+	}
 	sentBytes := uint64(len(msg))
 	for _, pre := range cs.pre {
 		sentBytes += uint64(len(pre))
@@ -517,6 +535,24 @@ func (e *consEnv) run(cs *caseT) *outcome {
 		}
 		if h := consensus.VerifC18HeldLocks(c.ConR, psOf(p), psOf(b)); len(h) > 0 {
 			out.viol("lock-leaked", "locks held after the gossip routines ran: %s", strings.Join(h, ", "))
+		}
+	}
+	if cs.Budget != nil && !failed {
+		r1, cu, c1, b1 := ret1r, ret1cu, ret1c, ret1b
+		mine := cu[string(p.ID())]
+		seqLen := len(cs.pre) + 1
+		if r1-ret0r > cs.Budget.Rounds {
+			out.viol("retained-state-unbounded", "after %d messages from ONE peer the node tracks %d more rounds (vote sets) for this height; the budget is %d (%s)", seqLen, r1-ret0r, cs.Budget.Rounds, cs.Budget.Why)
+		}
+		if mine > cs.Budget.Catchup {
+			out.viol("retained-state-unbounded", "after %d messages the peer holds %d catch-up rounds; the budget is %d (%s)", seqLen, mine, cs.Budget.Catchup, cs.Budget.Why)
+		}
+		if (c1-ret0c)+(b1-ret0b) > cs.Budget.Claims {
+			out.viol("retained-state-unbounded", "after %d messages from ONE peer the node keeps %d more majority claims / per-block tallies; the budget is %d (%s)", seqLen, (c1-ret0c)+(b1-ret0b), cs.Budget.Claims, cs.Budget.Why)
+		}
+		out.RetainedChecked = true
+		if r1-ret0r > 0 || mine > 0 || c1 > ret0c {
+			out.RetainedGrew = true
 		}
 	}
 	if cs.Drive != "" && !failed {
